@@ -133,3 +133,48 @@ func VerifC10AllocVsInbound() {
 	vAssert("outbound-message-recorded", n == 1)
 	vReach("end")
 }
+
+// C10(c): a message that cannot be queued for a subscriber (its outbound queue is full) is rolled back
+// without touching the subscriber's other exchanges: every id the subscriber has not acknowledged keeps its
+// record, whatever packet id the PUBLISHER used for its own publish (symbolic), and ids handed out afterwards
+// are distinct from the unacknowledged ones.
+func VerifC10Drop() {
+	caps := NewDefaultServerCapabilities()
+	caps.MaximumClientWritesPending = 1
+	s, h := vNewServer(&Options{Capabilities: caps})
+	cl, c := vNewClient(s, "c1", 5)
+	sub := packets.Subscription{Filter: "a", Qos: 1}
+	s.Topics.Subscribe("c1", sub)
+	cl.State.Subscriptions.Add("a", sub)
+	// two messages delivered and unacknowledged: ids 1 and 2
+	for i := 0; i < 2; i++ {
+		s.publishToSubscribers(packets.Packet{FixedHeader: packets.FixedHeader{Type: packets.Publish, Qos: 1}, TopicName: "a", Payload: []byte{byte(i)}, Origin: "o"})
+		vFlush(cl)
+	}
+	// the queue fills up (nobody drains it), then a publish whose own packet id is arbitrary is routed to c1
+	s.publishToSubscribers(packets.Packet{FixedHeader: packets.FixedHeader{Type: packets.Publish, Qos: 1}, TopicName: "a", Payload: []byte{7}, Origin: "o"})
+	pid := vU16()
+	droppedBefore := h.dropped
+	s.publishToSubscribers(packets.Packet{FixedHeader: packets.FixedHeader{Type: packets.Publish, Qos: 1}, PacketID: pid, TopicName: "a", Payload: []byte{8}, Origin: "o"})
+	vAssert("message-for-a-full-queue-is-dropped", h.dropped == droppedBefore+1)
+	for _, id := range []uint16{1, 2, 3} {
+		_, ok := cl.State.Inflight.Get(id)
+		vAssert("unacknowledged-message-keeps-its-record-when-another-is-dropped", ok)
+	}
+	vFlush(cl)
+	// later deliveries get fresh ids
+	s.publishToSubscribers(packets.Packet{FixedHeader: packets.FixedHeader{Type: packets.Publish, Qos: 1}, TopicName: "a", Payload: []byte{9}, Origin: "o"})
+	vFlush(cl)
+	w := vParseWire(vConnWritten(c), 5)
+	seen := map[uint16]int{}
+	for _, p := range w.Pkts {
+		if p.Type == packets.Publish && p.HasID {
+			seen[p.ID]++
+		}
+	}
+	for id, n := range seen {
+		_ = id
+		vAssert("no-packet-id-used-twice-while-unacknowledged", n == 1)
+	}
+	vReach("end")
+}
